@@ -66,3 +66,6 @@ M("nondet-np-random", "linesearch.py",
   "        steplength_0 = min(1.0, max_steplength)\n", "        steplength_0 = min(1.0, max_steplength) + 0.0 * np.random.rand()\n", ["NONDET"])
 M("nondet-id", "scalar_function.py",
   "        self.n = self.x.size\n", "        self.n = self.x.size\n        self._key = id(x0)\n", ["NONDET"])
+
+# ---- SHARED: process-wide settings (round 5)
+M("shared-seterr-manual-restore", "utils.py", "    return 1.0 / max_change\n", "    old = np.seterr(divide=\"ignore\")\n    out = 1.0 / max_change\n    np.seterr(**old)\n    return out\n", ["SHARED"])
